@@ -12,6 +12,6 @@ def jobs(tier):
 META = {
     "trusted_base": D.DFS_TRUSTED,
     "assumptions": [],
-    "outside": ["the volume-table loop of the OpusDiscCatalogue constructor and its std::sort (the extent loop after the sort is under contract)", "the flux adapters' sector lookup is under C05/C06"],
+    "outside": ["the std::sort between the table loop and the extent loop of the OpusDiscCatalogue constructor (both loops are under contract)", "the flux adapters' sector lookup is under C05/C06"],
     "explanation": "Volume::Access::read_block(lba): lba >= len => none, otherwise exactly one underlying read at origin+lba; composition: visit_file_body_piecewise only reads start..start+ceil(len/256)-1 through that access object; FileView reads only its own take-windows and nothing at/after its end; Opus volumes end where the next begins (disjoint, ordered, inside the disc)",
 }
